@@ -87,6 +87,7 @@ pub struct Machine {
     pub steps: u64,
     pub branches: u64,
     last_line_has_code: bool,
+    listing: Vec<String>,
     pub state_hashes: std::collections::HashSet<u64>,
 }
 
@@ -267,6 +268,7 @@ impl Machine {
             steps: 0,
             branches: 0,
             last_line_has_code,
+            listing: prog.render(),
             state_hashes: Default::default(),
         }
     }
@@ -828,6 +830,18 @@ impl Machine {
                         self.store.deftype(t, *a, *b);
                     }
                     Stmt::Raw(_) => return End::Undefined("raw statement".into()),
+                    Stmt::Cls => {
+                        // the screen is cleared: the cursor is at column 0
+                        self.ev.push(REv::Out("\u{1}CLS\u{2}".into()));
+                        self.cur.col = 0;
+                    }
+                    Stmt::List => {
+                        // every listed line ends with a newline
+                        for l in self.listing.clone() {
+                            self.ev.push(REv::Out(format!("\u{1}LIST:{}\u{2}", l)));
+                            self.cur.col = 0;
+                        }
+                    }
                     Stmt::If(..) | Stmt::IfGoto(..) | Stmt::While(_) | Stmt::Wend => unreachable!(),
                 },
             }
